@@ -82,7 +82,7 @@ def container_values_rules(ctx, R="R5"):
     for w in machine.ways(f.body, {elem}):
         if w.exit is not None:
             continue
-        parsed = any(u.startswith(f"{elem} = ") and ".deserialize(" in u for u in w.updates) or "<block>" in w.updates
+        parsed = any(u.startswith(f"{elem} = ") and "deserialize" in u and f"({elem}" in u for u in w.updates) or "<block>" in w.updates
         # (the class may have been looked up into a local first: any positive instance test of the element other than for the plain
         # serialised forms counts as "is an object of the container's kind")
         is_obj = k_inst in w.conds or any(c_.startswith(f"('call', 'isinstance', '{elem}', ") and not any(t_ in c_ for t_ in ("'dict'", "'str'", "'bytes'", "'list'"))
@@ -248,13 +248,19 @@ def compress_rules(ctx, R="R3", with_downcast=True):
                      and "integer_encoding" in ast.unparse(c.func.value) for c in ast.walk(n.ast.value))]
     ctx.need(fixed, "fixed point encode call in _compress_data")
     guards = [n for n in g2.nodes if n.kind == "test"
-              and "isfinite" in ast.unparse(n.ast.test) and "iinfo(np.int32)" in ast.unparse(n.ast.test)
-              and any(isinstance(b, ast.Return) for b in n.ast.body)]
+              and "isfinite" in ast.unparse(n.ast.test) and "iinfo(np.int32)" in ast.unparse(n.ast.test)]
     ok = False
+    from ..facts import conjuncts as _conjuncts
+
+    def _refuses(gd):
+        """is the test written as the REFUSAL (not finite or too large -> true) or as the admission (finite and small enough -> true)?"""
+        return not any(isinstance(c_, ast.Call) and "isfinite" in ast.unparse(c_) for c_ in _conjuncts(gd.ast.test))
     for gd in guards:
-        true_succ = [b for b in g2.succ[gd.id] if g2.ekind[(gd.id, b)] == "t"]
-        reach_true = g2.reachable(true_succ)
-        ok = ok or (gd.id in dom2.get(fixed[0].id, set()) and fixed[0].id not in reach_true)
+        # the encoding stands on the side of the test where the values are finite and in range, and only there
+        unsafe_kind = "t" if _refuses(gd) else "f"
+        unsafe_succ = [b for b in g2.succ[gd.id] if g2.ekind[(gd.id, b)] == unsafe_kind]
+        reach_unsafe = g2.reachable(unsafe_succ)
+        ok = ok or (gd.id in dom2.get(fixed[0].id, set()) and fixed[0].id not in reach_unsafe)
     ctx.ob(R + ".fixed-point-guarded", COMPRESS, "_compress_data", "finite and |x| * factor < int32 max before FixedPointEncoding.encode",
            ok,
            "compress() hands float data to FixedPointEncoding.encode (an unchecked cast to int32) without testing "
@@ -266,9 +272,15 @@ def compress_rules(ctx, R="R3", with_downcast=True):
                "the range test must be applied to the scaled magnitude |x| * factor", guards[0].line)
         fin = [c_ for c_ in ast.walk(guards[0].ast.test) if isinstance(c_, ast.Call) and call_name(c_) == "np.isfinite" and c_.args]
         tested = ast.unparse(fin[0].args[0]) if fin else "?"
+        # what is returned on the refusing side: the array itself as bytes (in the body of a refusing test, or - when the test is written
+        # as the admission - in what follows it)
+        if _refuses(guards[0]):
+            fallback_ = [b for b in guards[0].ast.body if isinstance(b, ast.Return)]
+        else:
+            fallback_ = [st for st in ast.walk(cd) if isinstance(st, ast.Return) and st.lineno > guards[0].ast.body[-1].end_lineno
+                         and not any(st is x for b in guards[0].ast.body for x in ast.walk(b))][:1]
         ctx.ob(R + ".fallback-lossless", COMPRESS, "_compress_data", "fallback ByteArrayEncoding()",
-               any(isinstance(b, ast.Return) and same_expr(b.value, f"bcif.BinaryCIFData({tested}, [ByteArrayEncoding()])")
-                   for b in guards[0].ast.body),
+               any(same_expr(b.value, f"bcif.BinaryCIFData({tested}, [ByteArrayEncoding()])") for b in fallback_),
                "values that do not fit must be kept losslessly", guards[0].line)
     # the factor passed to the encoding is the one tested
     fp = [c for c in calls(cd) if call_name(c) == "FixedPointEncoding"]
